@@ -424,7 +424,7 @@ def direct(seed, index):
     const_first = (index // 24) % 2 == 1
     form = (index // 48) % 6
     variant = (index // 288) % 4
-    if kind in ("fee", "gfee"): c = r.choice([0, 1000, 271999, 272000, 272001, 500000])
+    if kind in ("fee", "gfee"): c = r.choice([1, 1000, 271999, 272000, 272001, 500000])
     elif kind == "size": c = r.choice([1, 2, 3, 15, 16, 17])
     else: c = r.choice([0, 1, 2, 14, 15, 16])
     lit = r.choice([f"int {c}", f"pushint {c}"])
@@ -433,7 +433,7 @@ def direct(seed, index):
     if variant == 3:
         pre += ["int 0", "gtxns Amount", "pop"]   # absolute index 0 taken from the stack
     elif kind != "fee" or r.random() < 0.5:
-        pre += ["gtxn 1 Amount", "pop"]        # an absolute-index read, so that group-size-check applies
+        pre += ["gtxn 0 Amount", "pop"]        # an absolute-index read (always in range), so that group-size-check applies
     if variant in (1, 2):
         # one operand of the connective is left on the stack by the previous block
         conn = "&&" if variant == 1 else "||"
